@@ -66,7 +66,14 @@ class Verifier:
                         inputs[p] = (k, v.t)
                 env[p] = v
             if fn.vararg:
-                raise Unsupported('*args function needs explicit variants')
+                k = c.sorts.get(fn.vararg)
+                if k is None:
+                    raise Unsupported('*args function needs sort(\'%s\', ...)'
+                                      % fn.vararg)
+                v = eng.fresh_by_key(k, 'in_' + fn.vararg, st)
+                env[fn.vararg] = v
+                if hasattr(v, 't'):
+                    inputs[fn.vararg] = (k, v.t)
             st.env = env
             out.append((st, env, inputs))
         return out
